@@ -56,9 +56,18 @@ Proof. exact roundtrip. Qed.
    that date is unique (islamic_jdn_inj below) *)
 Theorem C19_gregorian2moslem : forall y m d, valid y m d = true ->
   jdn 622 7 16 <= jdn y m d <= jdn 3048 2 7 ->
-  exists h mi di, islamic_valid h mi di = true /\ islamic_jdn h mi di = jdn y m d /\
+  exists h mi di, 1 <= h <= 2500 /\ islamic_valid h mi di = true /\ islamic_jdn h mi di = jdn y m d /\
     Epoch_gregorian2moslem B0 (VInt y) (VInt m) (VInt d) = VTuple [VInt h; VInt mi; VInt di].
 Proof. exact g2m_spec. Qed.
+
+(* ... and converting that Moslem date back returns the civil date *)
+Theorem C19_roundtrip_civil : forall y m d, valid y m d = true ->
+  jdn 622 7 16 <= jdn y m d <= jdn 3048 2 7 ->
+  exists h mi di dv,
+    Epoch_gregorian2moslem B0 (VInt y) (VInt m) (VInt d) = VTuple [VInt h; VInt mi; VInt di] /\
+    Epoch_moslem2gregorian B0 (VInt h) (VInt mi) (VInt di) = VTuple [VInt y; VInt m; dv] /\
+    (dv = VInt d \/ dv = VFloat (b64_of_Z d)).
+Proof. exact roundtrip_civil. Qed.
 
 (* consecutive Moslem dates fall on consecutive civil days *)
 Theorem C19_consecutive : forall h m d h' m' d', 1 <= h -> h' <= 2500 ->
@@ -101,6 +110,7 @@ Redirect "C19_pesach.assumptions" Print Assumptions C19_pesach.
 Redirect "C19_moslem2gregorian.assumptions" Print Assumptions C19_moslem2gregorian.
 Redirect "C19_roundtrip.assumptions" Print Assumptions C19_roundtrip.
 Redirect "C19_gregorian2moslem.assumptions" Print Assumptions C19_gregorian2moslem.
+Redirect "C19_roundtrip_civil.assumptions" Print Assumptions C19_roundtrip_civil.
 Redirect "C19_consecutive.assumptions" Print Assumptions C19_consecutive.
 Redirect "C19_lengths.assumptions" Print Assumptions C19_lengths.
 Redirect "C19_islamic_bijection.assumptions" Print Assumptions C19_islamic_bijection.
